@@ -836,7 +836,7 @@ def run(ctx):
     limit = ctx.pick(4000, 20000)
     sys_cases, trunc = [], []
     t0 = time.time()
-    deadline = t0 + ctx.pick(240, 600)      # a busy machine truncates the largest configurations instead of running for ever
+    deadline = t0 + ctx.pick(90, 600)      # a busy machine truncates the largest configurations instead of running for ever
     with pinned():
         for base, bound in small_configs(quick):
             cs, t = explore(base, bound, limit, deadline)
@@ -883,7 +883,7 @@ def run(ctx):
 
     dsys, dtrunc = [], 0
     t2 = time.time()
-    ddl = t2 + ctx.pick(60, 300)
+    ddl = t2 + ctx.pick(30, 300)
     with pinned():
         for base, bound in div_small_configs(quick):
             cs, t = div_explore(base, bound, ctx.pick(1500, 15000), ddl)
